@@ -132,4 +132,51 @@ def classifyVariant (upgradable : Bool) (structIds tupleIds : List Nat) (id : Na
 /-- writer/reader pairing: the types the writer may emit that the reader does not declare -/
 def unknownToReader (w r : FrameSchema) : List Nat := w.types.filter fun t => !r.types.contains t
 
+/-! ## field-level pairing of hand-written writers and readers
+
+  A row of `Generated/TlvFieldPairs.lean`: (write block, read block, TLV type, writer key, reader key) — the struct
+  field the writer takes the value of that TLV type from, and the struct field the paired reader initialises from
+  the record of that type (`.field a.b`), as far as the translator's syntactic analysis can follow them; `.name x` when
+  one side is a computed local and the names (the only thing left to compare) are equal; `.loc` (computed local) /
+  `.const` / `.expr` / `.multi` otherwise. -/
+inductive KeyKind | field | name | loc | const | expr | multi
+  deriving DecidableEq, Repr
+
+abbrev FieldKey := KeyKind × String
+
+/-- (index of the pair in `tlvPairs`, write block, read block, TLV type, writer key, reader key) -/
+abbrev FieldRow := Nat × String × String × Nat × FieldKey × FieldKey
+
+def FieldRow.pairIdx (r : FieldRow) : Nat := r.1
+def FieldRow.wblock (r : FieldRow) : String := r.2.1
+def FieldRow.rblock (r : FieldRow) : String := r.2.2.1
+def FieldRow.typ (r : FieldRow) : Nat := r.2.2.2.1
+def FieldRow.wkey (r : FieldRow) : FieldKey := r.2.2.2.2.1
+def FieldRow.rkey (r : FieldRow) : FieldKey := r.2.2.2.2.2
+
+/-- a pinned disagreement: (write block, TLV type, writer key, reader key) -/
+abbrev FieldPin := String × Nat × FieldKey × FieldKey
+
+def FieldRow.pin (r : FieldRow) : FieldPin := (r.wblock, r.typ, r.wkey, r.rkey)
+
+/-- both sides resolved to a struct field path -/
+def FieldRow.bothFields (r : FieldRow) : Bool := r.wkey.1 == .field && r.rkey.1 == .field
+
+/-- writer and reader name the same field for this TLV type, or the disagreement is one of the pinned ones -/
+def FieldRow.agrees (pins : List FieldPin) (r : FieldRow) : Bool := r.wkey == r.rkey || pins.contains r.pin
+
+/-- the rows whose two keys differ -/
+def fieldMismatches (rows : List FieldRow) : List FieldPin :=
+  rows.filterMap fun r => if r.wkey == r.rkey then none else some r.pin
+
+/-- the struct field paths a write block puts under more than one TLV type (each reported once per extra use),
+    except the pinned (block, path) pairs -/
+def writtenTwice (allowed : List (String × String)) (blocks : List (String × List (Nat × String))) : List (String × String) :=
+  blocks.flatMap fun b =>
+    let paths := (b.2.map (·.2)).filter fun p => !allowed.contains (b.1, p)
+    ((List.range paths.length).filterMap fun i =>
+      match paths[i]? with
+      | some p => if (paths.take i).contains p then some (b.1, p) else none
+      | none => none)
+
 end Ldk.TlvFrame
